@@ -128,7 +128,9 @@ def run(ctx):
         except PysmtException as e:
             out = ("err", type(e).__name__)
         sat = None
-        if ty.is_bool_type() and mode == "total":
+        # satisfies() completes absent symbols with the documented defaults, so it is
+        # checked for total models and for partial models whose absent symbols have defaults
+        if ty.is_bool_type() and mode in ("total", "partial-complete"):
             try:
                 sat = model.satisfies(f)
             except PysmtException as e:
